@@ -638,7 +638,20 @@ func (e *Engine) globalBytes(x ast.Expr) (string, int, bool) {
 
 // ---------------- interface method stubs ----------------
 
-func (e *Engine) ifaceStubPure(c *ast.CallExpr) bool { return false }
+func (e *Engine) ifaceStubPure(c *ast.CallExpr) bool {
+	se, ok := unparen(c.Fun).(*ast.SelectorExpr)
+	if !ok {
+		return false
+	}
+	sel := e.pk.Info.Selections[se]
+	if sel == nil || sel.Kind() != types.MethodVal {
+		return false
+	}
+	if _, isIface := types.Unalias(sel.Recv()).Underlying().(*types.Interface); !isIface {
+		return false
+	}
+	return e.pureMethod(se.Sel.Name)
+}
 
 func (e *Engine) ifaceStubMods(c *ast.CallExpr) ([]string, bool) {
 	se, ok := unparen(c.Fun).(*ast.SelectorExpr)
